@@ -95,9 +95,16 @@ impl Profile for ProxyTwin {
                     slot: 0,
                     sender: rng.pick(accounts).clone(),
                     args: Value::Object(args),
-                    funds: match rng.below(4) { 0 => Some(vec![Coin::new(rng.range(1, 60) as u128, "ucoin")]), 1 => Some(vec![]), _ => None },
+                    funds: match rng.below(6) {
+                        0 => Some(vec![Coin::new(rng.range(1, 60) as u128, "ucoin")]),
+                        1 => Some(vec![]),
+                        // several coins in the caller's order, a repeated denom, a zero coin
+                        2 => Some(vec![Coin::new(rng.range(1, 9) as u128, "ucoin"), Coin::new(rng.range(1, 9) as u128, "uatom")]),
+                        3 => Some(vec![Coin::new(rng.below(3) as u128, "ucoin"), Coin::new(1u128, "uatom"), Coin::new(2u128, "ucoin")]),
+                        _ => None,
+                    },
                     label: match rng.below(6) { 0 | 1 => None, 2 => Some(String::new()), _ => Some(format!("lbl{}", sg.nonce())) },
-                    admin: if rng.chance(1, 2) { Some(rng.pick(accounts).clone()) } else { None },
+                    admin: match rng.below(6) { 0 | 1 | 2 => Some(rng.pick(accounts).clone()), 3 => Some(String::new()), _ => None },
                     salt: if rng.chance(1, 3) { let n = rng.range(1, 8) as usize; Some(Doc(rng.bytes(n))) } else { None },
                 }));
                 n_contracts += 0; // new instances are not targeted by later ops of this plan
